@@ -12,6 +12,7 @@ import RtoscModel.Ring.Spec
 import RtoscModel.Proofs.RingSeq
 import RtoscModel.Proofs.OscLength
 import RtoscModel.Proofs.BundleLength
+import RtoscModel.Proofs.BundleTerm
 namespace Rtosc.Ring
 open Rtosc
 
@@ -130,6 +131,38 @@ theorem rawLen_eq_frameOsc (b : Bytes) (h : IsOscMsg b) : rawLen b = .ok (frameO
   have h2 := oscFraming.msg b [] h
   rw [List.append_nil] at h1 h2
   rw [h1, h2]
+
+/-! ### `rtosc_message_length(msg,-1)` returns (after fix C06-bundle-length-wrap) -/
+
+/-- the block starts with `#bundle\0`: the `&&` chain of `rtosc_message_ring_length` says so -/
+theorem magicU_of_take (b : Bytes) (h : b.take 8 = bundleMagic) :
+    Osc.magicU b Osc.bundleMagic 0 = some true := by
+  have hb : b = Osc.bundleMagic ++ b.drop 8 := by
+    have := List.take_append_drop 8 b
+    rw [h] at this
+    exact this.symm
+  rw [hb]
+  simp [Osc.magicU, Osc.bundleMagic]
+
+theorem rawLen_ne_hang (b : Bytes) (h : b.length < 4294967296 ∨ b.take 8 = bundleMagic) :
+    rawLen b ≠ .hang := by
+  rcases h with h | h
+  · exact Osc.messageLengthU_ne_hang b h
+  · exact Osc.messageLengthU_bundle_ne_hang b (magicU_of_take b h)
+
+/-- an operation of the sequential model with the real length functions has no successor only
+    when it is a `raw_write` whose length walk leaves the block or does not return -/
+theorem stepOsc_none (s : Seq) (op : Op) (h : s.stepOsc op = none) :
+    ∃ b, op = .rawWrite b ∧ (rawLen b = .oob ∨ rawLen b = .hang) := by
+  cases op with
+  | rawWrite b =>
+    refine ⟨b, rfl, ?_⟩
+    simp only [Seq.stepOsc] at h
+    cases hr : rawLen b with
+    | ok n => rw [hr] at h; cases h
+    | oob => exact Or.inl rfl
+    | hang => exact Or.inr rfl
+  | _ => cases h
 
 theorem stepOsc_eq (s : Seq) (op : Op) (h : op.Ok IsOscMsg) :
     s.stepOsc op = some (s.step frameOsc op) := by
